@@ -573,13 +573,19 @@ impl World {
         self.queue.insert(pos, d);
     }
 
+    /// Put raw bytes on the receive socket now (used by the C04 receive-path sweeps).
+    pub fn inject(&mut self, bytes: Vec<u8>, from: IpAddr) {
+        let now = self.now();
+        self.enqueue(now, bytes, from, Origin::Noise("garbage"), false, "other", 0);
+    }
+
     // ---------------------------------------------------------------------------------------
     // Noise: foreign, never-sent and garbage packets
     // ---------------------------------------------------------------------------------------
 
     fn inject_noise(&mut self, k: usize) {
         let n = self.sc.noise.clone();
-        if n.foreign_pct == 0 && n.never_pct == 0 && n.garbage_pct == 0 {
+        if n.foreign_pct == 0 && n.never_pct == 0 && n.garbage_pct == 0 && n.mutant_pct == 0 {
             return;
         }
         let Some(tpl) = self.sends[k].wire.clone() else { return };
@@ -612,6 +618,29 @@ impl World {
                 let d = self.rng.random_range(1..=self.sc.net.hop_delay_us.max(2));
                 self.enqueue(now + d, bytes, from, Origin::Noise("never"), false, "te", never);
             }
+        }
+        if n.mutant_pct > 0 && self.rng.random_range(0..100) < n.mutant_pct {
+            // a valid response to this probe with a few octets of its structural part overwritten, or cut short
+            let mhop = Hop {
+                addr: 778,
+                quote: *[0u8, 1, 2, 3].get(self.rng.random_range(0..4)).unwrap(),
+                ..Hop::default()
+            };
+            let mut q = tpl.clone();
+            self.fix_quote(&mut q);
+            let te = self.rng.random_bool(0.7);
+            let mut bytes = self.icmp_error(from, te, &q, &mhop);
+            let span = bytes.len().min(160);
+            for _ in 0..self.rng.random_range(1..3) {
+                let k = self.rng.random_range(0..span);
+                bytes[k] = self.rng.random();
+            }
+            if self.rng.random_bool(0.05) {
+                let cut = self.rng.random_range(0..=bytes.len());
+                bytes.truncate(cut);
+            }
+            let d = self.rng.random_range(1..=self.sc.net.hop_delay_us.max(2) * 2);
+            self.enqueue(now + d, bytes, from, Origin::Noise("garbage"), false, "other", 0);
         }
         if n.garbage_pct > 0 && self.rng.random_range(0..100) < n.garbage_pct {
             // a well-formed ICMP message of a type the tracer has no business with
